@@ -660,3 +660,154 @@ func TestPlaintextAgainstTLSEndpoint(t *testing.T) {
 		}
 	})
 }
+
+// ---------------------------------------------------------------------------------------------------------
+// Experiment 4: an upstream configured for TLS never falls back to plaintext on a later connection attempt
+
+// TestTLSUpstreamNeverReconnectsInClear: the same +tls upstream object is connected several times (as the client does
+// after a session loss or a failed first attempt); on the last attempt a hostile peer that speaks a perfect PLAINTEXT
+// handshake sits on the port. The client must greet it with a TLS ClientHello, never with a plaintext request, and must
+// not complete a session.
+func TestTLSUpstreamNeverReconnectsInClear(t *testing.T) {
+	// finite space, enumerated: scheme x every sequence of 0-2 earlier attempts
+	kinds := []string{"honest-tls-server", "nothing-listening"}
+	seqs := [][]string{{}}
+	for _, a := range kinds {
+		seqs = append(seqs, []string{a})
+		for _, b := range kinds {
+			seqs = append(seqs, []string{a, b})
+		}
+	}
+	for _, scheme := range []string{"tcp+tls", "https"} {
+		for _, priorKinds := range seqs {
+			tlsReconnectCase(t, scheme, priorKinds)
+		}
+	}
+}
+
+type fataler interface {
+	Fatalf(format string, args ...interface{})
+}
+
+func tlsReconnectCase(t *testing.T, scheme string, priorKinds []string) {
+	func(rt fataler) {
+		prior := len(priorKinds)
+		port := vlib.Port()
+		var up upstream.Upstream
+		carrier := vlib.CarTCPTLS
+		if scheme == "tcp+tls" {
+			up = &upstream.Socket{Address: addr.MustParseAddress(fmt.Sprintf("tcp+tls://localhost:%d", port))}
+		} else {
+			carrier = vlib.CarHTTPS
+			up = &upstream.Http{Address: addr.MustParseAddress(fmt.Sprintf("https://localhost:%d/ws/all", port))}
+		}
+		mgr := &cert.ClientConfig{Config: cert.Config{CaCertificate: vlib.GetPKI().CA.CertPEM}}
+		desc := map[string]interface{}{"scheme": scheme, "prior_attempts": priorKinds}
+		fail := func(msg string) {
+			vlib.Rec.Violation(map[string]interface{}{"property": "C04", "experiment": 4, "case": desc, "problem": msg})
+			rt.Fatalf("C04 exp4 %v: %s", desc, msg)
+		}
+		for _, k := range priorKinds {
+			if k == "nothing-listening" {
+				_ = up.Connect(mgr, false)
+				continue
+			}
+			// an honest TLS socketace server on that very port
+			tgt := vlib.NewTarget("data", vlib.EchoHandler)
+			kp := vlib.ServerCertFor("match", "localhost")
+			srv, err := startServerOn(carrier, port, &kp, tgt)
+			if err != nil {
+				tgt.Close()
+				vlib.Rec.Inconclusive("bind")
+				return
+			}
+			err = up.Connect(mgr, false)
+			if err != nil {
+				srv()
+				tgt.Close()
+				fail(fmt.Sprintf("the %s upstream could not connect to an honest TLS server: %v", scheme, err))
+			}
+			up.Close()
+			srv()
+			tgt.Close()
+			time.Sleep(30 * time.Millisecond)
+		}
+		// now the hostile plaintext peer
+		var ln net.Listener
+		var err error
+		for i := 0; i < 40; i++ {
+			ln, err = net.Listen("tcp", vlib.HostPort(port))
+			if err == nil {
+				break
+			}
+			time.Sleep(50 * time.Millisecond)
+		}
+		if err != nil {
+			vlib.Rec.Inconclusive("bind")
+			return
+		}
+		defer ln.Close()
+		var mu sync.Mutex
+		var first []byte
+		var clear bytes.Buffer
+		tlsDone := false
+		go func() {
+			c, err := ln.Accept()
+			if err != nil {
+				return
+			}
+			c.SetDeadline(time.Now().Add(6 * time.Second))
+			peek := make([]byte, 16)
+			n, _ := c.Read(peek)
+			mu.Lock()
+			first = append([]byte(nil), peek[:n]...)
+			mu.Unlock()
+			// answer like a plaintext socketace (or plaintext websocket) server would
+			s := script{AnnounceStatus: "200", Capability: "none", UpgradeStatus: "101", AfterUpgrade: "silence"}
+			pc := &prefixConn{Conn: c, prefix: peek[:n]}
+			if scheme == "https" {
+				serveWebsocketScript(pc, s, &clear, &mu, &tlsDone)
+			} else {
+				serveScript(pc, s, &clear, &mu, &tlsDone)
+			}
+		}()
+		old := socketace.HandshakeTimeout
+		socketace.HandshakeTimeout = 3 * time.Second
+		cerr := up.Connect(mgr, false)
+		socketace.HandshakeTimeout = old
+		if cerr == nil {
+			up.Close()
+		}
+		time.Sleep(30 * time.Millisecond)
+		mu.Lock()
+		fb := append([]byte(nil), first...)
+		mu.Unlock()
+		vlib.Rec.Case(fmt.Sprintf("exp4 %v", desc), true, []string{"exp4", "scheme:" + scheme, fmt.Sprintf("prior:%d", prior)}, func() interface{} { return desc })
+		if len(fb) > 0 && !(fb[0] == 0x16 && len(fb) > 1 && fb[1] == 0x03) {
+			fail(fmt.Sprintf("the %s upstream greeted the peer in clear on a later connection attempt: first bytes %q", scheme, fb))
+		}
+		if cerr == nil {
+			fail(fmt.Sprintf("the %s upstream completed a session with a peer that only speaks plaintext", scheme))
+		}
+	}(errorfAsFatal{t})
+}
+
+// errorfAsFatal lets one enumerated case fail without stopping the enumeration.
+type errorfAsFatal struct{ t *testing.T }
+
+func (e errorfAsFatal) Fatalf(format string, args ...interface{}) { e.t.Errorf(format, args...) }
+
+// prefixConn replays bytes that were read ahead.
+type prefixConn struct {
+	net.Conn
+	prefix []byte
+}
+
+func (p *prefixConn) Read(b []byte) (int, error) {
+	if len(p.prefix) > 0 {
+		n := copy(b, p.prefix)
+		p.prefix = p.prefix[n:]
+		return n, nil
+	}
+	return p.Conn.Read(b)
+}
